@@ -77,10 +77,19 @@ theorem valSplit_encVal (rc : Nat) (v : AVal) (b rest : Bytes) (h : encVal rc v 
     have key : ∀ n, (Except.ok (beN 4 n) : Except Err Bytes) = .ok b → valSplit 2 (b ++ rest) = some (b, rest) := by
       intro n hn; simp at hn; subst hn
       exact valSplit_fixed 2 4 _ rest (by simp) (by simp)
+    have key' : ∀ x : Except Err Nat, (x.map (beN 4) : Except Err Bytes) = .ok b → valSplit 2 (b ++ rest) = some (b, rest) := by
+      intro x hx
+      cases x with
+      | error e => simp [Except.map] at hx
+      | ok r => exact key r (by simpa [Except.map] using hx)
     split at h
     · split at h <;> first | exact key _ h | simp at h
-    · simp at h
-    · simp at h
+    · split at h
+      · exact key' _ h
+      · simp at h
+    · split at h
+      · exact key' _ h
+      · simp at h
     · exact key _ h
     · simp at h
   · -- IDENT
